@@ -127,3 +127,23 @@ Proof.
   - rewrite all_nil_concat by auto. constructor.
   - rewrite concat_app in *. simpl in *. apply Permutation_cons_app. exact IH.
 Qed.
+
+(* ---------------------------------------------------------------- output_dir: one file per mapping group, any completion order *)
+Lemma written_to_perm p ws1 ws2 : Permutation ws1 ws2 -> NoDup (map fst ws1) -> written_to p ws1 = written_to p ws2.
+Proof.
+  induction 1 as [|w l1 l2 HP IH|x y l|l1 l2 l3 H1 IH1 H2 IH2]; intro Hnd; auto.
+  - cbn [map] in Hnd. inversion Hnd; subst. unfold written_to. cbn [flat_map]. f_equal. now apply IH.
+  - cbn [map] in Hnd. inversion Hnd as [|a b Hnot Hnd']; subst. unfold written_to. cbn [flat_map].
+    destruct (ueqb p (fst y)) eqn:Ey, (ueqb p (fst x)) eqn:Ex; auto; try now rewrite ?app_nil_r.
+    apply ueqb_eq in Ey, Ex. exfalso. apply Hnot. left. congruence.
+  - rewrite IH1 by auto. apply IH2. apply (Permutation_NoDup (Permutation_map fst H1) Hnd).
+Qed.
+Lemma existsb_perm {A} (g : A -> bool) l1 l2 : Permutation l1 l2 -> existsb g l1 = existsb g l2.
+Proof. induction 1; simpl; auto; [now rewrite IHPermutation|destruct (g x), (g y); reflexivity|congruence]. Qed.
+Theorem group_files_schedule_invariant f r1 r2 :
+  clears r1 = clears r2 -> Permutation (writes r1) (writes r2) -> NoDup (map fst (writes r1)) ->
+  forall p, fs_get (cli_run f r1) p = fs_get (cli_run f r2) p.
+Proof.
+  intros Hc Hp Hnd p. unfold cli_run. rewrite !writes_get, Hc.
+  rewrite (written_to_perm p _ _ Hp Hnd), (existsb_perm _ _ _ Hp). reflexivity.
+Qed.
